@@ -26,6 +26,7 @@ import (
 	"go/token"
 	"os"
 	"path/filepath"
+	"runtime"
 	"sort"
 	"strconv"
 	"strings"
@@ -362,9 +363,78 @@ func genConsts(repo, out string) {
 			n, _ := constant.Int64Val(v)
 			fmt.Fprintf(&b, "Definition %s_%s : Z := %d.\n", p.pfx, c, n)
 		}
+		fmt.Fprintf(&b, "(* the largest needle Index hands to the runtime's native Index/IndexString: the K of\n   \"if bytealg.NativeIndex && n <= K && nonLetterASCII(substr)\" *)\nDefinition %s_nativeMax : Z := %d.\n", p.pfx, nativeNeedleBound(f, t.consts, p.path))
 		b.WriteString("\n")
 	}
 	writeIfChanged(filepath.Join(out, "Consts.v"), b.Bytes())
+}
+
+// nativeNeedleBound finds, in func Index, the one if statement whose condition is a conjunction containing
+// bytealg.NativeIndex, a call of nonLetterASCII and "n <= K" (or "n < K"), and returns K (K-1).
+func nativeNeedleBound(f *ast.File, env map[string]constant.Value, path string) int64 {
+	var found []int64
+	for _, d := range f.Decls {
+		fd, ok := d.(*ast.FuncDecl)
+		if !ok || fd.Recv != nil || fd.Name.Name != "Index" || fd.Body == nil {
+			continue
+		}
+		ast.Inspect(fd.Body, func(n ast.Node) bool {
+			is, ok := n.(*ast.IfStmt)
+			if !ok {
+				return true
+			}
+			var conj []ast.Expr
+			var split func(e ast.Expr)
+			split = func(e ast.Expr) {
+				if p, ok := e.(*ast.ParenExpr); ok {
+					split(p.X)
+					return
+				}
+				if be, ok := e.(*ast.BinaryExpr); ok && be.Op == token.LAND {
+					split(be.X)
+					split(be.Y)
+					return
+				}
+				conj = append(conj, e)
+			}
+			split(is.Cond)
+			native, nonLetter, bound, nb := false, false, int64(0), 0
+			for _, c := range conj {
+				switch e := c.(type) {
+				case *ast.SelectorExpr:
+					if x, ok := e.X.(*ast.Ident); ok && x.Name == "bytealg" && e.Sel.Name == "NativeIndex" {
+						native = true
+					}
+				case *ast.CallExpr:
+					if id, ok := e.Fun.(*ast.Ident); ok && id.Name == "nonLetterASCII" {
+						nonLetter = true
+					}
+				case *ast.BinaryExpr:
+					if x, ok := e.X.(*ast.Ident); ok && x.Name == "n" && (e.Op == token.LEQ || e.Op == token.LSS) {
+						if v, ok := evalInt(e.Y, env); ok {
+							k, _ := constant.Int64Val(v)
+							if e.Op == token.LSS {
+								k--
+							}
+							bound = k
+							nb++
+						}
+					}
+				}
+			}
+			if native && nonLetter {
+				if nb != 1 {
+					die("%s: Index: the native fast path's condition has %d bounds on n", path, nb)
+				}
+				found = append(found, bound)
+			}
+			return true
+		})
+	}
+	if len(found) != 1 {
+		die("%s: Index: expected exactly one 'bytealg.NativeIndex && n <= K && nonLetterASCII(substr)', found %d", path, len(found))
+	}
+	return found[0]
 }
 
 func genOracle(out string) {
@@ -418,11 +488,54 @@ func genOracle(out string) {
 		fmt.Fprintf(&b, " (%d, (%d, %d))", r, u, l)
 	}
 	b.WriteString("\n].\n")
+	// the runtime's internal/bytealg.MaxLen ("Index requires 2 <= len(b) <= MaxLen"): every value it is assigned
+	vals, min := runtimeMaxLen()
+	b.WriteString("\n(* internal/bytealg.MaxLen of this toolchain: every value assigned in $GOROOT/src/internal/bytealg/index_*.go\n   (")
+	b.WriteString(strings.Join(vals, "; "))
+	fmt.Fprintf(&b, "), and the least of them *)\nDefinition rt_maxlen_min : Z := %d.\n", min)
 	writeIfChanged(filepath.Join(out, "Oracle.v"), b.Bytes())
 }
 
 // exported function signatures of a package file, with string and []byte
 // both rendered as B (the two packages must export the same set)
+// runtimeMaxLen reads the assignments "MaxLen = <int>" of the runtime's internal/bytealg/index_*.go.
+func runtimeMaxLen() ([]string, int64) {
+	dir := filepath.Join(runtime.GOROOT(), "src", "internal", "bytealg")
+	files, _ := filepath.Glob(filepath.Join(dir, "index_*.go"))
+	sort.Strings(files)
+	var vals []string
+	min := int64(-1)
+	for _, path := range files {
+		if strings.HasSuffix(path, "_test.go") {
+			continue
+		}
+		f := parseFile(path)
+		ast.Inspect(f, func(n ast.Node) bool {
+			as, ok := n.(*ast.AssignStmt)
+			if !ok || len(as.Lhs) != 1 || len(as.Rhs) != 1 {
+				return true
+			}
+			if id, ok := as.Lhs[0].(*ast.Ident); !ok || id.Name != "MaxLen" {
+				return true
+			}
+			v, ok := evalInt(as.Rhs[0], map[string]constant.Value{})
+			if !ok {
+				die("%s: MaxLen assigned a non-constant", path)
+			}
+			k, _ := constant.Int64Val(v)
+			vals = append(vals, fmt.Sprintf("%s %d", filepath.Base(path), k))
+			if min < 0 || k < min {
+				min = k
+			}
+			return true
+		})
+	}
+	if min < 0 {
+		die("no assignment to MaxLen found under %s", dir)
+	}
+	return vals, min
+}
+
 func exportsOf(dir string) []string {
 	var out []string
 	files, _ := filepath.Glob(filepath.Join(dir, "*.go"))
